@@ -18,20 +18,45 @@ COMMON_ASSUME = [
 PROPS = {
     "C01": {
         "engine": "wdsim", "level": "exploration",
-        "quick": {"max_runs": 200000, "budget_s": 40, "recheck": 25},
-        "thorough": {"max_runs": 5000000, "budget_s": 900, "recheck": 50},
+        "quick": {"max_runs": 100000000, "budget_s": 40, "recheck": 25},
+        "thorough": {"max_runs": 1000000000, "budget_s": 900, "recheck": 50},
         "rule": "one evaluation = one seeded run: a multi-client sequential history of 3-40 requests against webdav.Handler{LocalFileSystem} on tmpfs, every response and the on-disk tree compared with the RFC 4918 resource-tree model after each request. Non-trivial and distinct = distinct (abstract tree shape, request class) pairs in which the request addressed an existing resource or changed the tree.",
         "real_vs_stub": WD_REAL,
         "assumptions": COMMON_ASSUME + ["where the RFC leaves a choice (several refusal reasons at once, 200 vs 204, root as target, letter case of Depth/Overwrite) the model accepts every allowed answer"],
     },
     "C17": {
         "engine": "wdsim", "level": "exploration",
-        "quick": {"max_runs": 200000, "budget_s": 40, "recheck": 25},
-        "thorough": {"max_runs": 5000000, "budget_s": 900, "recheck": 50},
+        "quick": {"max_runs": 100000000, "budget_s": 40, "recheck": 25},
+        "thorough": {"max_runs": 1000000000, "budget_s": 900, "recheck": 50},
         "rule": "one evaluation = one seeded run; every response (all header names/values and the full body) is searched for the absolute path of the served root, its symlink-resolved form and the sandbox path. Non-trivial and distinct = distinct (request class) of requests answered >= 400 (an error text was produced).",
         "real_vs_stub": WD_REAL,
         "assumptions": COMMON_ASSUME,
     },
+}
+
+PROPS["C02"] = {
+    "engine": "wdsim", "level": "fault_enumeration",
+    "quick": {"max_runs": 100000000, "budget_s": 40, "recheck": 25},
+    "thorough": {"max_runs": 1000000000, "budget_s": 900, "recheck": 50},
+    "rule": "one evaluation = one seeded run of one of four profiles: (1) histories biased to refused requests incl. failing If-Match/If-None-Match, (2) histories in which every PUT body stream breaks at a seeded offset (0, len, io.Copy buffer edges forced) with unexpected-EOF / custom error / context cancellation under several chunkings, (3) histories with one injected disk error (errno kinds, short write+ENOSPC) at a seeded seam-call ordinal, (4) one small upload cut at EVERY offset 0..len with every kind. Oracle: on-disk snapshot before == after whenever status >= 400 (old-or-new, never torn, under disk faults). Non-trivial and distinct = distinct request classes answered >= 400 while a pre-existing resource sat at the target or destination.",
+    "real_vs_stub": WD_REAL,
+    "assumptions": COMMON_ASSUME + ["under injected disk errors only PUT is held to old-or-new atomicity; COPY/MOVE/DELETE/MKCOL only to 'nothing outside the addressed subtrees changes' (the property's quantifier does not include disk faults)"],
+}
+PROPS["C03"] = {
+    "engine": "wdsim", "level": "exploration",
+    "quick": {"max_runs": 100000000, "budget_s": 40, "recheck": 25},
+    "thorough": {"max_runs": 1000000000, "budget_s": 900, "recheck": 50},
+    "rule": "one evaluation = one seeded run: a history whose request-targets and Destination values come from a traversal grammar (dot-dot, encoded dots/slashes/backslashes, NUL, overlong UTF-8, <root>-evil prefix twins, absolute host paths of canaries, very long segments, absolute-URL and //authority forms, random percent-encoded bytes) crossed with every method, against a root nested in a sandbox with canaries next to and above it. Monitors: every path argument of every disk-seam call lies under the root; canaries and the outside listing unchanged; hrefs inside the namespace and addressing what they describe; unmappable paths (NUL) answered 4xx. Non-trivial and distinct = distinct (method, hostile target or Destination) whose request reached the disk seam.",
+    "real_vs_stub": WD_REAL,
+    "assumptions": COMMON_ASSUME + ["calls whose path leaves the sandbox are blocked at the seam (and reported) so a breach can never touch the host", "no symlinks inside the served tree (WebDAV cannot create them)"],
+}
+PROPS["C04"] = {
+    "engine": "wdsim", "level": "exploration",
+    "quick": {"max_runs": 100000000, "budget_s": 40, "recheck": 25},
+    "thorough": {"max_runs": 1000000000, "budget_s": 900, "recheck": 50},
+    "rule": "one evaluation = one seeded run: 2-4 client nodes, few files, conditional PUT/DELETE with If-Match / If-None-Match in {unset, *, current tag, stale tag, tag of another resource, well-formed unknown, malformed} (tags resolved at run time from what the server announced; a HEAD probe before each conditional request makes the truth table decidable) against absent/file/collection targets, interleaved with unconditional writes by other clients that make remembered tags stale. Oracle: model truth table -> carried out (tree as in C01) or 412/400 with the tree unchanged; one tag string per unmodified version across PUT/GET/HEAD/PROPFIND; webdav.ConditionalMatch helpers compared with the statement. Non-trivial and distinct = distinct conditional request classes (method, target kind, If-Match class, If-None-Match class).",
+    "real_vs_stub": WD_REAL,
+    "assumptions": COMMON_ASSUME + ["one request in flight at a time (the property does not quantify over overlapping requests on one resource)", "the CalDAV/CardDAV pass-through clause is checked in davsim (C13 runs) by raw PUTs against recording backends"],
 }
 
 MANIFEST_TEXT = {
@@ -40,6 +65,24 @@ MANIFEST_TEXT = {
         "level_text": "Seeded exploration of request histories (3-40 requests, trees up to ~24 nodes, special-character names, spelling variants of paths) with a step-by-step refinement oracle: status, entity headers, body, multi-status content and the on-disk tree must equal what the reference model allows. Sampling, not enumeration: the right level for a claim over unbounded histories of a persistent store.",
         "design_ref": "DESIGN.md section 3 / C01, appendix A",
         "level_note": "Trusted: the reference model (written from RFC 4918/3986 and the property text), net/http's request parser, tmpfs. Names are sampled from alphabets; requests in flight one at a time.",
+    },
+    "C02": {
+        "technique": "deterministic simulation with fault injection: request-body stream faults at seeded and at every byte offset, context cancellation, injected disk errors at seeded system-call ordinals, and refusal-biased histories; on-disk snapshot before/after every request",
+        "level_text": "Fault enumeration: for small uploads every cut offset x error kind is executed (thorough and, in a share of runs, quick); larger uploads, disk-call ordinals and refusal histories are seeded samples. The oracle needs no model: bytes on disk before == after whenever the answer is >= 400.",
+        "design_ref": "DESIGN.md section 3 / C02",
+        "level_note": "Trusted: tmpfs, the disk shim's error shaping. Disk-fault atomicity is demanded of PUT only (old-or-new, no stray names unless a remove call itself failed).",
+    },
+    "C03": {
+        "technique": "deterministic simulation: hostile-path histories with a confinement monitor at the disk seam (every path argument of every os/filepath call), canary files, and multi-status href re-addressing",
+        "level_text": "Seeded exploration of a traversal grammar crossed with all methods and both channels (request-target, Destination). The monitor sits where I/O effects are complete: a would-be read outside the root is caught before it reaches the kernel.",
+        "design_ref": "DESIGN.md section 3 / C03",
+        "level_note": "Trusted: the import rewrite reaches every os/filepath call of the library packages (a use of an API the shim lacks fails the build, exit 2).",
+    },
+    "C04": {
+        "technique": "deterministic simulation: multi-client stale-tag histories against the real handler and LocalFileSystem with modification times from the fake clock, judged by the model's precondition truth table",
+        "level_text": "Seeded exploration of histories in which a tag learned by one client goes stale because another wrote in between; the truth table (2 headers x 7 value classes x 3 resource states x 2 methods) is covered many times per batch and the tree is compared after every request.",
+        "design_ref": "DESIGN.md section 3 / C04",
+        "level_note": "Trusted: the model's reading of the statement's truth table; entity tags are opaque strings learned from announcements.",
     },
     "C17": {
         "technique": "deterministic simulation: every response of seeded histories, including histories with OS error kinds injected at the disk seam, scanned for the host path",
